@@ -84,6 +84,11 @@ pub fn gen(rng: &mut Rng, n: usize, thorough: bool, emit: &mut dyn FnMut(String)
                 emit(format!("{}\tstr\t{}", kind, enc_str(&format!("3{}", w))));
             }
         }
+        for j in JUNK.iter() {
+            for pre in ["3", "3 ", "3k", "3 second"] {
+                emit(format!("{}\tstr\t{}", kind, enc_str(&format!("{}{}", pre, j))));
+            }
+        }
         emit(format!("{}\tother\t-", kind));
         emit(format!("{}\tother\tfloat", kind));
         emit(format!("{}\tother\tbool", kind));
